@@ -13,11 +13,18 @@ def driver_args(tier, seed, phase):
 
 RULE = ("hand-written catalogue (label boundary at depth, longest rule / insertion order / overwrite, missing child keeps the value "
         "found so far, precedence between types with different values, case and dots on both sides, first-colon split, default type, "
-        "unknown types, regexps that do not compile, empty and malformed patterns, loader lines with comments / CRLF / broken lines) "
-        "followed by seeded random rule sets over the label alphabet {a, b, ab} (depth <= 5, all four types, default type, duplicates "
-        "with other case / dot / value, nested suffixes) x names derived from the rules (itself, subdomain, glued string suffix, parent) "
-        "through MixMatcher.Add/Match, the four single matchers, domain.Load/LoadFromTextReader, domain_set.NewDomainSet (file), "
-        "plugin hosts.NewHosts + Response and redirect.NewRedirect + Exec; plus a separate malformed stream (empty labels, '..', bad type "
+        "unknown types, regexps that do not compile, empty and malformed patterns, loader lines with comments / CRLF / broken lines; "
+        "an exhaustive case sweep: for each of the 26 letters and for the range neighbours '@'/'`' and '['/'{' a rule and a name that differ "
+        "only in that one byte, both directions, every rule type, through MixMatcher, the single matchers, hosts and domain_set; "
+        "single-type rule sets (full only / domain only / regexp only / keyword only, exps only / file only) through domain_set.NewDomainSet "
+        "and the qname matcher) "
+        "followed by seeded random rule sets over the label alphabet {a, b, ab} plus boundary labels (z, zz, az, m, y, a@, a`, a[, a{) "
+        "(depth <= 5, all four types, default type, duplicates with other case / dot / value, nested suffixes; case flips per letter, "
+        "independently, mostly a single letter and preferably a boundary letter) x names derived from the rules (itself, subdomain, glued "
+        "string suffix, parent, case-flipped, '@'<->'`' / '['<->'{' confused) "
+        "through MixMatcher.Add/Match, the four single matchers, domain.Load/LoadFromTextReader, domain_set.NewDomainSet (exps + file), "
+        "qname.QuickSetup -> base_domain.NewMatcher (exps + &file), plugin hosts.NewHosts + Response and redirect.NewRedirect + Exec, "
+        "half of the provider cases with rule sets of one type only; plus a separate malformed stream (empty labels, '..', bad type "
         "names, no default). A case is non-trivial when for some query at least two rules describe the name or a domain rule is a string "
         "suffix of the name without being a label suffix; distinct = distinct Gallina literal")
 ASSUMPTIONS = [
@@ -27,10 +34,13 @@ ASSUMPTIONS = [
     "names with empty labels are outside the property; the model still reproduces what the code does on them (checked by Judge.C12.agree), "
     "the property's own oracle (spec) is applied only to rule sets and names without empty labels",
     "IP address syntax (hosts) and YAML decoding of plugin arguments are outside the model",
+    "a set whose only rules are root-domain rules ('domain:' / '.') has Len() == 0 and is dropped by domain_set / base_domain: the model "
+    "reproduces this (Judge.C12.loaded_view); such patterns have an empty label and are outside the property's oracle",
 ]
 TRUSTED_BASE = [
     "hand-written model coq/Model/Domain.v tied to pkg/matcher/domain/{matcher,utils,load_helper}.go, pkg/utils/strings.go and the "
-    "loaders of plugin/data_provider/domain_set, plugin/executable/hosts, plugin/executable/redirect by differential execution (Judge.C12)",
+    "loaders of plugin/data_provider/domain_set, plugin/matcher/base_domain (via qname), plugin/executable/hosts, "
+    "plugin/executable/redirect by differential execution (Judge.C12)",
 ]
 LEVEL_TEXT = ("Theorems in coq/Properties/C12.v, for all rule lists, all default types, all names and every regexp engine: the mix matcher "
               "matches iff some accepted rule describes the name (c12_mix_iff); full = equal normalised strings, last add wins (c12_full_iff); "
@@ -38,7 +48,9 @@ LEVEL_TEXT = ("Theorems in coq/Properties/C12.v, for all rule lists, all default
               "valid names is 'equal or ends with \".\"+pattern' and never a mere string suffix (c12_domain_label_boundary, "
               "c12_domain_never_string_suffix); keyword = substring (c12_keyword_iff); regexp on the normalised name with the expression as "
               "written (c12_regexp_iff); value precedence full > domain > regexp > keyword (c12_mix_value_precedence); normalisation, the "
-              "index-level reverse scanner (c12_scanner_general, no fuel exhaustion), first-colon split and default type, and the text loader. "
+              "index-level reverse scanner (c12_scanner_general, no fuel exhaustion), first-colon split and default type, the text loader, and "
+              "Len() > 0 for every set with one accepted rule of any type other than the root domain, so domain_set / base_domain keep it "
+              "(c12_nonempty_set_is_kept). "
               "The same model functions are run inside Coq on every observation of the real matchers, loaders and plugin constructors.")
 LEVEL_NOTE = ("Trusted: Coq kernel + vm_compute; hand-written model tied to the code by the differential run; Go's regexp as an arbitrary "
               "function; ASCII input. Keyword and regexp matchers iterate over Go maps, so with several matching rules of that type the "
